@@ -100,6 +100,8 @@ def gen_workload(tape, *, max_funcs=5, max_size=3, allow_gen=True, allow_tuple=T
             fd["none_mod"] = 2 + tape.choose(2, "none-mod")
         if tape.coin(0.15, "element-scope"):
             fd["resources_scope"] = "element"  # learners are then split per element
+        if n_out == 1 and kind != "gen" and tape.coin(0.1, "sequence-valued"):
+            fd["seq_out"] = True  # each element / the single result is a 2-tuple
         # extra bound / default parameters
         if allow_defaults and tape.coin(0.15, "bound"):
             b = f"b{counters['b']}"
@@ -210,7 +212,8 @@ def build_pipeline(w, *, cached=(), tags=None, **pipeline_kwargs):
     for fd in w["functions"]:
         fn = Fn(fd["name"], fd["params"], defaults=fd.get("sig_defaults") or None,
                 n_out=len(fd["outputs"]), out_shape=fd.get("out_shape"),
-                tag=(tags or {}).get(fd["name"], ""), none_mod=0 if fd.get("out_shape") else fd.get("none_mod", 0))
+                tag=(tags or {}).get(fd["name"], ""), none_mod=0 if fd.get("out_shape") else fd.get("none_mod", 0),
+                seq_out=bool(fd.get("seq_out")) and not fd.get("out_shape"))
         out = fd["outputs"][0] if len(fd["outputs"]) == 1 else tuple(fd["outputs"])
         kw = {}
         if fd.get("out_shape") and w.get("internal_via", "pipefunc") == "pipefunc":
@@ -247,6 +250,7 @@ def describe(w):
              **({"out_shape": fd["out_shape"]} if fd.get("out_shape") else {}),
              **({"returns_none_1_in": fd["none_mod"]} if fd.get("none_mod") else {}),
              **({"resources_scope": "element"} if fd.get("resources_scope") == "element" else {}),
+             **({"sequence_valued": True} if fd.get("seq_out") else {}),
              **({"bound": fd["bound"]} if fd.get("bound") else {}),
              **({"defaults": {**fd["defaults"], **fd["sig_defaults"]}} if fd.get("defaults") or fd.get("sig_defaults") else {})}
             for fd in w["functions"]
